@@ -25,6 +25,7 @@ import (
 	"runtime/debug"
 	"strings"
 	"sync"
+	"sync/atomic"
 	"testing"
 	"time"
 
@@ -946,6 +947,99 @@ func v17LatencyConfigs(out *vOut) {
 	}
 }
 
+// High contention on the handler-wide bucket: a total burst of exactly one batch, a refill rate
+// that is negligible within a round, and N connections of one handler released together, each
+// doing one Read of batch size against an inner connection with data ready. The bucket is a shared
+// object and its reservations are atomic: whatever the interleaving, the bytes pulled by all
+// connections within the round stay within total_burst + total_rate * elapsed. The Reads that have
+// to wait (a second per batch) are cancelled through the connection context when the round ends.
+func v17SharedBucketRace(out *vOut) {
+	const (
+		batch  = 1000
+		trate  = 1000.0
+		conns  = 12
+		rounds = 300
+	)
+	if prev := runtime.GOMAXPROCS(0); prev < 4 {
+		runtime.GOMAXPROCS(4)
+		defer runtime.GOMAXPROCS(prev)
+	}
+	run := func() (worst string, bad, roundsRun int, pulledMax int64) {
+		for round := 0; round < rounds; round++ {
+			h := &Handler{TotalReadBytesPerSecond: trate, TotalReadBurstSize: batch}
+			err, cancelProv := v17Provision(h)
+			if err != nil {
+				cancelProv()
+				return "provision: " + err.Error(), 1, round, 0
+			}
+			ctx, cancelConns := context.WithCancel(context.Background())
+			var release int32
+			var ready, done sync.WaitGroup
+			inners := make([]*v17Inner, conns)
+			for k := 0; k < conns; k++ {
+				inners[k] = &v17Inner{size: batch, seed: byte(k)}
+				cx := layer4.WrapConnection(inners[k], nil, zap.NewNop())
+				cctx, ccancel := context.WithCancel(cx.Context)
+				go func() { <-ctx.Done(); ccancel() }()
+				cx.Context = cctx
+				ready.Add(1)
+				done.Add(1)
+				go func() {
+					defer done.Done()
+					_ = h.Handle(cx, layer4.HandlerFunc(func(cx *layer4.Connection) error {
+						p := make([]byte, batch)
+						ready.Done()
+						for atomic.LoadInt32(&release) == 0 {
+							runtime.Gosched()
+						}
+						_, _ = cx.Read(p)
+						return nil
+					}))
+				}()
+			}
+			ready.Wait()
+			t0 := time.Now()
+			atomic.StoreInt32(&release, 1)
+			time.Sleep(time.Millisecond)
+			cancelConns()
+			done.Wait()
+			elapsed := time.Since(t0)
+			cancelProv()
+			var pulled int64
+			for _, in := range inners {
+				in.mu.Lock()
+				pulled += in.off
+				in.mu.Unlock()
+			}
+			roundsRun++
+			if pulled > pulledMax {
+				pulledMax = pulled
+			}
+			if lim := float64(batch) + trate*(elapsed+v17Slack).Seconds(); float64(pulled) > lim {
+				bad++
+				if worst == "" || pulled == pulledMax {
+					worst = fmt.Sprintf("round %d: %d connections released together, each one Read of %d bytes: %d bytes pulled in total within %s; total_burst + total_rate*(T+%s) = %.1f", round, conns, batch, pulled, elapsed, v17Slack, lim)
+				}
+			}
+		}
+		return
+	}
+	worst, bad, n, pmax := run()
+	if bad > 0 { // timing-sensitive: report only what happens twice
+		if w2, bad2, _, _ := run(); bad2 == 0 {
+			bad = 0
+		} else if worst == "" {
+			worst = w2
+		}
+	}
+	in := fmt.Sprintf("total_read_bytes_per_second=%g total_read_burst_size=%d; %d rounds of %d connections of one handler released together (GOMAXPROCS=%d), one Read(p) with len(p)=%d each; waiting Reads cancelled after 1 ms", trate, batch, rounds, conns, runtime.GOMAXPROCS(0), batch)
+	if bad > 0 {
+		out.Fail("C17:bound:total-exceeded", fmt.Sprintf("%d of %d rounds over the bound; %s", bad, n, worst), in)
+	}
+	out.Case("", "timed:shared-bucket-race", pmax > 0, map[string]any{"cfg": in, "rounds": n, "max_pulled_in_a_round": pmax, "rounds_over_bound": bad})
+	out.Stat("shared_bucket_rounds", n)
+}
+
 func TestVerifC17(t *testing.T) {
 	out := vOpen()
 	defer out.Close()
@@ -959,6 +1053,7 @@ func TestVerifC17(t *testing.T) {
 	if vThorough() {
 		nt = 48
 	}
+	v17SharedBucketRace(out)
 	v17LatencyConfigs(out)
 	v17LatencyAfterCancel(out)
 	v17TimedCases(out, r, nt)
